@@ -87,7 +87,7 @@ class SText:
         return id(self)
 
     def __repr__(self):
-        return f"SText<{self.kind.__name__}>({self.t})"
+        return f"SText<{self.kind.__name__}>(#{self.t.hash()})"
 
     def __format__(self, spec):
         from .values import register_fmt
@@ -136,13 +136,19 @@ class SText:
         if isinstance(i, slice):
             if i.step not in (None, 1):
                 raise Unsupported("extended slice of symbolic text")
+            cut = self._slice_by_points(i.start, i.stop)
+            if cut is not None:
+                return cut
             a = 0 if i.start is None else tint(i.start)
             b = n if i.stop is None else tint(i.stop)
             a = a if isinstance(a, int) else z3.If(a < 0, z3.If(a + n < 0, 0, a + n), z3.If(a > n, n, a))
             b = b if not isinstance(b, z3.ExprRef) or b is n else z3.If(b < 0, z3.If(b + n < 0, 0, b + n), z3.If(b > n, n, b))
             a_t = z3.IntVal(a) if isinstance(a, int) else a
             ln = z3.If(b - a_t < 0, 0, b - a_t)
-            return SText(z3.SubString(self.t, a_t, ln), self.kind)
+            r = SText(z3.SubString(self.t, a_t, ln), self.kind)
+            if i.stop is None:
+                r.suffix_of = self  # provenance: x[a:] is a suffix of x by construction
+            return r
         ti = tint(i)
         if c.branch(ti < 0, "text.negidx"):
             ti = ti + n
@@ -152,6 +158,63 @@ class SText:
         if self.kind is bytes:
             return mk_int(z3.StrToCode(one))
         return SText(one, str)
+
+    # -- split points: positions p with a known decomposition  self == prefix ++ suffix, len(prefix) == p --------
+    def _points(self):
+        pts = getattr(self, "_pts", None)
+        if pts is None:
+            pts = self._pts = {}
+        return pts
+
+    @staticmethod
+    def _key(term):
+        return z3.simplify(term).sexpr() if not isinstance(term, int) else str(term)
+
+    def _add_point(self, pos_term, prefix, suffix):
+        self._points()[self._key(pos_term)] = (prefix, suffix)
+
+    def _point(self, v):
+        if v is None:
+            return None
+        if isinstance(v, int):
+            if v == 0:
+                return (z3.StringVal(""), self.t)
+            return None
+        return self._points().get(self._key(tint(v)))
+
+    def _slice_by_points(self, start, stop):
+        """self[start:stop] through word equations when both bounds are known split points"""
+        ps = (z3.StringVal(""), self.t) if start is None else self._point(start)
+        pe = (self.t, z3.StringVal("")) if stop is None else self._point(stop)
+        if ps is None or pe is None:
+            return None
+        if start is None or (isinstance(start, int) and start == 0):
+            return SText(pe[0], self.kind)
+        if stop is None:
+            r = SText(ps[1], self.kind)
+            r.suffix_of = self
+            return r
+        c = ctx()
+        m = z3.String(c.fresh_name("mid"))
+        # prefix_end == prefix_start ++ m   (start <= stop at the call sites; otherwise the slice is empty)
+        if c.branch(tint(start) <= tint(stop), "slice.ordered"):
+            c.add(pe[0] == z3.Concat(ps[0], m))
+            return SText(m, self.kind)
+        return SText(z3.StringVal(""), self.kind)
+
+    def _find_cut(self, hay_term, sub_t, sub_len_const, base_prefix, base_suffix):
+        """hay == a ++ sub ++ b with the first occurrence; registers the two split points on self"""
+        c = ctx()
+        nm = c.fresh_name("find")
+        a, b = z3.String(nm + ".a"), z3.String(nm + ".b")
+        c.add(hay_term == z3.Concat(a, sub_t, b))
+        c.add(z3.IndexOf(hay_term, sub_t, 0) == z3.Length(a))
+        pre = z3.Concat(base_prefix, a) if base_prefix is not None else a
+        la = z3.Length(pre) if base_prefix is not None else z3.Length(a)
+        suf_after = z3.Concat(b, base_suffix) if base_suffix is not None else b
+        self._add_point(z3.Length(a) if base_prefix is None else la, pre, z3.Concat(sub_t, suf_after))
+        self._add_point(z3.Length(a) + sub_len_const, z3.Concat(pre, sub_t), suf_after)
+        return a, b
 
     # -- methods --------------------------------------------------------------
     def encode(self, encoding="utf-8", errors="strict"):
@@ -198,9 +261,26 @@ class SText:
         return mk_bool(z3.SuffixOf(self._same(p).t, self.t))
 
     def find(self, sub, start=0, end=None):
+        sp = self._same(sub)
+        c = ctx()
+        const_sub = z3.is_string_value(sp.t)
+        if end is not None and isinstance(start, int) and start == 0 and const_sub:
+            pe = self._point(end)
+            if pe is not None:
+                # search inside the known prefix self[:end]
+                if c.branch(z3.Contains(pe[0], sp.t), "find.in_prefix"):
+                    a, _ = self._find_cut(pe[0], sp.t, len(RL.py_unescape(sp.t.as_string())), None, pe[1])
+                    return mk_int(z3.Length(a))
+                return -1
         if end is not None:
-            raise Unsupported("find with end")
-        return mk_int(z3.IndexOf(self.t, self._same(sub).t, tint(start)))
+            pre = z3.SubString(self.t, 0, tint(end))
+            return mk_int(z3.IndexOf(pre, sp.t, tint(start)))
+        if isinstance(start, int) and start == 0 and const_sub:
+            if c.branch(z3.Contains(self.t, sp.t), "find.found"):
+                a, _ = self._find_cut(self.t, sp.t, len(RL.py_unescape(sp.t.as_string())), None, None)
+                return mk_int(z3.Length(a))
+            return -1
+        return mk_int(z3.IndexOf(self.t, sp.t, tint(start)))
 
     def index(self, sub, start=0):
         r = self.find(sub, start)
@@ -328,6 +408,48 @@ class SText:
         r = m.eval(self.t, model_completion=True)
         s = RL.py_unescape(r.as_string()) if z3.is_string_value(r) else str(r)
         return s.encode("latin-1", "replace") if self.kind is bytes else s
+
+
+class SNumText:
+    """a header value of which only 'is it 1*DIGIT' and its numeric value matter (e.g. Content-Length):
+    is_digits (Bool), ndigits (Int >= 1), value (Int >= 0).  Regex gates whose language equals 1*DIGIT are decided by
+    is_digits; int() is total exactly when is_digits holds and the numeral has at most 4300 digits (CPython limit)."""
+
+    _pyvc_sym = True
+
+    def __init__(self, name):
+        from .values import fresh_bool, fresh_int
+
+        self.is_digits = fresh_bool(name + ".is_digits")
+        self.ndigits = fresh_int(name + ".ndigits", 1)
+        self.value = fresh_int(name + ".value", 0)
+        self.matched = []
+
+    def sym_regex(self, pat, mode):
+        c = ctx()
+        if mode == "fullmatch" and RL.equivalent(RL.lang(pat, "fullmatch"), z3.Plus(RL.rng(48, 57)))[0] == "equal":
+            if c.branch(tbool(self.is_digits), "digits.fullmatch"):
+                self.matched.append(pat)
+                return SMatch(pat, self, mode)
+            return None
+        raise Unsupported(f"regex {pat.pattern!r} on a numeric header abstraction")
+
+    def sym_int(self, base=10):
+        c = ctx()
+        stubs.used("int(str): ValueError unless the text is a numeral (here: 1*DIGIT) of at most 4300 digits")
+        if base != 10 or not c.branch(tbool(self.is_digits), "int.is_numeral"):
+            raise ValueError("invalid literal for int() with base 10")
+        if c.branch(tint(self.ndigits) > 4300, "int.too_many_digits"):
+            raise ValueError("Exceeds the limit (4300 digits) for integer string conversion")
+        return self.value
+
+    def __format__(self, spec):
+        return "<number>"
+
+    def concretize(self, m):
+        from .core import concretize as cz
+
+        return {"is_digits": cz(self.is_digits, m), "ndigits": cz(self.ndigits, m), "value": cz(self.value, m)}
 
 
 _SUBSET_CACHE: dict = {}
